@@ -44,21 +44,33 @@ func (e *typedErr) Error() string { return "transport: not open: " + e.cause.Err
 func (e *typedErr) TypeId() int32 { return 1 }
 func (e *typedErr) Unwrap() error { return e.cause }
 
-var termErrs = []error{io.EOF, io.ErrUnexpectedEOF, errX, fmt.Errorf("ctx: %w", errX), fmt.Errorf("conn reset while relaying: %w", thrift.NewProtocolException(thrift.INVALID_DATA, "upstream said so")), &typedErr{cause: errX}}
-var termErrNames = []string{"io.EOF", "io.ErrUnexpectedEOF", "errX", "wrapped(errX)", "wraps-a-protocol-exception", "typed-error-wrapping(errX)"}
+var termErrs = []error{io.EOF, io.ErrUnexpectedEOF, errX, fmt.Errorf("ctx: %w", errX), fmt.Errorf("conn reset while relaying: %w", thrift.NewProtocolException(thrift.INVALID_DATA, "upstream said so")), &typedErr{cause: errX}, fmt.Errorf("read tcp 10.0.0.1:8888: connection closed by peer: %w", io.EOF), srcTimeout{}}
+
+// srcTimeout is a deadline error of the source (net.Error style: Timeout() is true); it is the source's error like any other.
+type srcTimeout struct{}
+
+func (srcTimeout) Error() string   { return "verif: i/o timeout on the source" }
+func (srcTimeout) Timeout() bool   { return true }
+func (srcTimeout) Temporary() bool { return true }
+
+var termErrNames = []string{"io.EOF", "io.ErrUnexpectedEOF", "errX", "wrapped(errX)", "wraps-a-protocol-exception", "typed-error-wrapping(errX)", "wrapped(io.EOF)", "timeout-error"}
 
 // ---- EnvReader: harness-owned io.Reader (fault and fragmentation model, DESIGN 4.3) ----
 
 type EnvCfg struct {
-	Chunk       int  `json:"chunk"`               // max bytes per Read (0 = as much as fits)
-	ErrWithLast bool `json:"err_with_last"`       // final data delivered together with the error
-	ZeroReads   int  `json:"zero_reads"`          // (0,nil) answers before every data read
-	Err         int  `json:"err"`                 // index into termErrs
-	AfterErr    int  `json:"after_err,omitempty"` // what a Read AFTER the terminal error answers: 0 the same error again, 1 bogus data (0x7b...) then another error
+	Chunk       int  `json:"chunk"`                    // max bytes per Read (0 = as much as fits)
+	ErrWithLast bool `json:"err_with_last"`            // final data delivered together with the error
+	ZeroReads   int  `json:"zero_reads"`               // (0,nil) answers before every data read
+	Len         bool `json:"source_has_len,omitempty"` // the source also has a Len() method: bytes readable right now without blocking (as connections and ring buffers have)
+	Err         int  `json:"err"`                      // index into termErrs
+	AfterErr    int  `json:"after_err,omitempty"`      // what a Read AFTER the terminal error answers: 0 the same error again, 1 bogus data (0x7b...) then another error
 }
 
 func (e EnvCfg) String() string {
 	s := fmt.Sprintf("chunk=%d errWithLast=%v zeroReads=%d err=%s", e.Chunk, e.ErrWithLast, e.ZeroReads, termErrNames[e.Err])
+	if e.Len {
+		s += " source-has-Len"
+	}
 	if e.AfterErr != 0 {
 		s += " after-error=bogus-data-then-other-error"
 	}
@@ -128,6 +140,28 @@ func NewEnvReader(d []byte, cfg EnvCfg) *EnvReader {
 }
 
 func (e *EnvReader) Pos() int { return e.pos }
+
+// Src is what the code under test is given: the reader itself or, with Cfg.Len, a wrapper whose dynamic type also has
+// Len() int = number of bytes the next Read can deliver without blocking (NOT the bytes still to come).
+func (e *EnvReader) Src() io.Reader {
+	if e.Cfg.Len {
+		return &envReaderLen{e}
+	}
+	return e
+}
+
+type envReaderLen struct{ *EnvReader }
+
+func (l *envReaderLen) Len() int {
+	if l.ErrReturned {
+		return 0
+	}
+	n := len(l.D) - l.pos
+	if l.Cfg.Chunk > 0 && n > l.Cfg.Chunk {
+		n = l.Cfg.Chunk
+	}
+	return n
+}
 
 func (e *EnvReader) Read(p []byte) (int, error) {
 	if e.Hook != nil {
